@@ -576,3 +576,22 @@ impl<S: Sample> Properties<'_, '_, '_, S> {
         }
     }
 }
+
+/// Verification hooks (`--cfg jxl_oxide_verif`).
+#[cfg(jxl_oxide_verif)]
+pub mod verif {
+    use super::*;
+
+    /// `Predictor::predict` (module-private) for the harness crate.
+    pub fn predict<S: Sample, const EDGE: bool>(p: Predictor, properties: &Properties<S>) -> i32 {
+        p.predict::<S, EDGE>(properties)
+    }
+
+    /// Self-correcting prediction (8x fixed point) and its sub-predictions, if enabled.
+    pub fn sc_prediction<S: Sample>(properties: &Properties<S>) -> Option<(i64, i32, [i64; 4])> {
+        properties
+            .sc_prediction
+            .as_ref()
+            .map(|p| (p.prediction, p.max_error, p.subpred))
+    }
+}
